@@ -46,6 +46,11 @@ CHECKS = {
     text="Kernel-checked for every program, oracle and state: a non-control instruction moves to the next line or fails in place; a line that is j/jr/hcf never continues sequentially; in a closed layout every function region is preceded by such a line, hence is entered only by explicit transfer; running past the last line halts with no effect. For each compile the region entries come from the hook and `closed` is evaluated in Coq on the emitted program; programs are also executed past the end of main. The layout is NOT closed today whenever main can terminate (refuted by witness in C07.v): open known finding pinned by the stored .ref files.",
     note="Trusted: Coq kernel; IC10/Machine.v; hook's owner export; ic10.py reader. Dynamic part bounded/sampled.",
     design="4 C07"),
+ "C08": dict(
+    category="proof", technique="Coq proofs about models of calc_hash / compute_hash / compute_string / _apply_output_mode / format_int (all strings, all integers, all modes) + translator tie + token-wise comparison of compact and verbose outputs",
+    text="Kernel-checked: calc_hash's xor/subtract formula is the signed reading of the CRC for every 32-bit value (and CRC-32 of every byte string is below 2^32); for every name and every output mode the printed HASH token (HASH(\"..\"), decimal or $HEX) has the value signed-CRC(name); the same for STR over ASCII strings (shift/or packing = big-endian base 256); format_int output reads back as the integer for EVERY integer (Coq's standard decimal/hexadecimal printers and parsers); every enum member's name resolves to its number within its enumeration (finite, regenerated). The six functions' shapes and constants are re-read from the source each run. Model functions are compared with the implementation on generated strings/integers, and compact vs verbose outputs of repository, generated and sweep programs are compared token-wise.",
+    note="Trusted: Coq kernel; CRC32.v (vs zlib each run); ic10.py token valuation; translator hashfmt.py. Strings are modelled by their UTF-8 bytes (the compact/verbose choice for non-ASCII names is not compared: either choice has the same value). One open known finding (bare enum names used as plain values).",
+    design="4 C08"),
 }
 
 NOT_YET = {}
